@@ -280,6 +280,27 @@ def run(repo: Repo, rep: Report) -> None:
                 rep.ob("C05.c-json-by-dumps", mod, qual, c, ok, "text from dumps()" if ok else "JSON output text %s is not the result of json.dumps/orjson.dumps" % norm(a)[:60], node=c)
         if nw == 0:
             raise AnalysisError("%s: no stream.write found" % qual)
+    # (c2) non-finite floats never reach json.dumps as numbers
+    rep.rule("C05.c2-no-nan-in-json",
+             "a JSON serializer either calls json.dumps(..., allow_nan=False), or converts literals to native Python numbers (toPython()) only under "
+             "a finiteness test (math.isfinite / isnan / isinf): json.dumps would write NaN / Infinity, which is not JSON", floor=2)
+    for modname in ("rdflib.plugins.serializers.jsonld", "rdflib.plugins.sparql.results.jsonresults", "rdflib.plugins.serializers.hext"):
+        mod = repo.mod(modname)
+        dumps = [c for c in ast.walk(mod.tree) if isinstance(c, ast.Call) and norm(c.func) == "json.dumps"]
+        strict = bool(dumps) and all(any(k.arg == "allow_nan" and isinstance(k.value, ast.Constant) and k.value.value is False for k in c.keywords) for c in dumps)
+        natives = []
+        for q, f in mod.functions():
+            for c in own_nodes(f):
+                if isinstance(c, ast.Call) and isinstance(c.func, ast.Attribute) and c.func.attr == "toPython":
+                    guarded = any(isinstance(x, ast.Call) and norm(x.func).split(".")[-1] in ("isfinite", "isnan", "isinf") for x in ast.walk(f))
+                    natives.append((q, c, guarded))
+        if strict or not natives:
+            rep.ob("C05.c2-no-nan-in-json", mod, "<module>", "json.dumps(allow_nan=False) / no native numbers", True,
+                   "allow_nan=False" if strict else "no literal is converted to a native Python number in this module", node=mod.tree)
+        for q, c, guarded in ([] if strict else natives):
+            rep.ob("C05.c2-no-nan-in-json", mod, q, c, guarded,
+                   "native conversion guarded by a finiteness test" if guarded else
+                   "a literal's Python value (possibly float('nan') / inf) enters the JSON tree and json.dumps is not called with allow_nan=False: the output contains bare NaN / Infinity", node=c)
 
 
 def xmlns_agreement(repo: Repo, rep: Report, RULE: str) -> None:
